@@ -110,6 +110,13 @@ func (e *Env) lookupIdent(name string) (Val, bool) {
 			return e.objVal(obj)
 		}
 	}
+	if g := e.x.P.C.Ghosts[name]; g != nil {
+		p, t, err := e.x.ghostPtr(g)
+		if err != nil {
+			return e.fail("ghost %s: %v", name, err)
+		}
+		return e.load(p, t), true
+	}
 	// a local of the function that has not been declared on this path: an arbitrary value
 	if e.frame != nil {
 		for _, b := range e.frame.fn.Blocks {
@@ -681,6 +688,29 @@ func (e *Env) evalCall(n *ast.CallExpr) (Val, bool) {
 				return e.fail("as: target must be a pointer type")
 			}
 			return Val{K: KPtr, Typ: t, P: &Ptr{Kind: PObj, Base: a.Fs[1].T, Elem: pt.Elem()}}, true
+		case "hassuffix", "hasprefix", "contains":
+			// string theory: hassuffix(s, suffix), hasprefix(s, prefix), contains(s, sub)
+			if len(n.Args) != 2 {
+				return e.fail("%s needs two strings", id.Name)
+			}
+			a, ok := e.eval(n.Args[0])
+			if !ok {
+				return a, false
+			}
+			b, ok := e.eval(n.Args[1])
+			if !ok {
+				return b, false
+			}
+			if a.T.Sort != sStr || b.T.Sort != sStr {
+				return e.fail("%s on non-string operands", id.Name)
+			}
+			switch id.Name {
+			case "hassuffix":
+				return scalar(app(sBool, "str.suffixof", b.T, a.T), boolT), true
+			case "hasprefix":
+				return scalar(app(sBool, "str.prefixof", b.T, a.T), boolT), true
+			}
+			return scalar(app(sBool, "str.contains", a.T, b.T), boolT), true
 		case "has":
 			// has(m, k): key k is present in map m
 			if len(n.Args) != 2 {
@@ -1019,6 +1049,15 @@ func (e *Env) evalModifies(m ast.Expr) ([]modLoc, bool) {
 	x := e.x
 	e.err = ""
 	switch n := m.(type) {
+	case *ast.Ident:
+		if g := x.P.C.Ghosts[n.Name]; g != nil {
+			p, t, err := x.ghostPtr(g)
+			if err != nil {
+				e.err = err.Error()
+				return nil, false
+			}
+			return objLocs(p.Base, t), true
+		}
 	case *ast.SelectorExpr:
 		v, ok := e.eval(n.X)
 		if !ok {
@@ -1173,4 +1212,12 @@ func objLocs(base Term, t types.Type) []modLoc {
 		}
 	}
 	return out
+}
+
+func (x *Exec) ghostPtr(g *GhostVar) (*Ptr, types.Type, error) {
+	t, err := x.P.resolveType(g.Type, x.P.pkgOf(g.PkgPath))
+	if err != nil {
+		return nil, nil, err
+	}
+	return &Ptr{Kind: PObj, Base: x.reg.globalRef("ghost." + g.Name), Elem: t}, t, nil
 }
